@@ -2,8 +2,9 @@ use rusty_common::AtPos;
 use rusty_parser::{
     Expression, ExpressionPos, ExpressionType, HasExpressionType, Operator, TypeQualifier,
 };
+use rusty_variant::Variant;
 
-use crate::core::{CanCastTo, LintError, LintErrorPos};
+use crate::core::{CanCastTo, CastVariant, LintError, LintErrorPos, qualifier_of_variant};
 
 pub fn binary_cast(
     left: ExpressionPos,
@@ -60,6 +61,18 @@ fn bigger_numeric_type(left: TypeQualifier, other: TypeQualifier) -> Option<Type
     }
 }
 
+/// The floating point type an operand of the division is converted to:
+/// `INTEGER` becomes `SINGLE` and `LONG` becomes `DOUBLE`.
+fn floating_point_type(q: TypeQualifier) -> Option<TypeQualifier> {
+    match q {
+        TypeQualifier::PercentInteger | TypeQualifier::BangSingle => {
+            Some(TypeQualifier::BangSingle)
+        }
+        TypeQualifier::AmpersandLong | TypeQualifier::HashDouble => Some(TypeQualifier::HashDouble),
+        _ => None,
+    }
+}
+
 fn cast_binary_op_q(
     left: TypeQualifier,
     right: TypeQualifier,
@@ -81,9 +94,13 @@ fn cast_binary_op_q(
                 }
             }
         }
-        // 1b. minus, multiply, divide -> if we can cast self to right, and we're not a string, that's the result
+        // 1b. minus, multiply -> if we can cast self to right, and we're not a string, that's the result
         // MOD is covered later in logical operators because it's similar logic
-        Operator::Minus | Operator::Multiply | Operator::Divide => bigger_numeric_type(left, right),
+        Operator::Minus | Operator::Multiply => bigger_numeric_type(left, right),
+        // 1c. divide -> floating point division, the result is the bigger floating point type of the operands
+        Operator::Divide => {
+            bigger_numeric_type(floating_point_type(left)?, floating_point_type(right)?)
+        }
         // 2. relational operators
         //    if we an cast self to right, the result is -1 or 0, therefore integer
         Operator::Less
@@ -138,4 +155,17 @@ fn cast_binary_op_et(
         },
         _ => None,
     }
+}
+
+/// Divides two values with the floating point division of the `/` operator.
+///
+/// Both operands are converted to the type of the quotient before the division.
+/// [Variant::divide] stores a quotient without a fraction as a whole number,
+/// so the quotient is converted as well.
+pub fn qb_divide(left: Variant, right: Variant) -> Result<Variant, LintError> {
+    let q_left = qualifier_of_variant(&left)?;
+    let q_right = qualifier_of_variant(&right)?;
+    let q = cast_binary_op_q(q_left, q_right, Operator::Divide).ok_or(LintError::TypeMismatch)?;
+    let quotient = left.cast(q)?.divide(right.cast(q)?)?;
+    quotient.cast(q)
 }
